@@ -782,7 +782,17 @@ pub async fn run_scenario(sc: &Value) -> Vec<Value> {
                 // the application sends in a tight loop: nothing else runs on the thread between two sends (no task of the
                 // socket gets a turn) unless a send itself gives control back
                 let ms: Vec<Vec<Vec<u8>>> = op.get("ms").and_then(|v| v.as_array()).map(|a| a.iter().map(frames_of).collect()).unwrap_or_default();
+                let mut refusals = sim::BUDGET_REFUSALS.load(Ordering::SeqCst);
                 for frames in ms {
+                    // a write the runtime refused (cooperative budget) is a connection that did not take data at that instant
+                    let r = sim::BUDGET_REFUSALS.load(Ordering::SeqCst);
+                    if r != refusals {
+                        refusals = r;
+                        let cs: Vec<(i64, usize)> = env.conns.iter().filter(|(_, k)| k.attached).map(|(c, k)| (*c, k.from_lib.tap_len())).collect();
+                        for (c, tap) in cs {
+                            env.ev(json!({"ev":"pipe","c":c,"what":"refused","tap":tap}));
+                        }
+                    }
                     let d = rc::mdesc(&frames);
                     let n: usize = frames.iter().map(|f| f.len() + if f.len() > 255 { 9 } else { 2 }).sum();
                     let first: Vec<u8> = frames.first().map(|f| f[..f.len().min(16)].to_vec()).unwrap_or_default();
